@@ -105,6 +105,27 @@ def _init_cases(seed, tier):
                 yield {"self": Converter.__new__(Converter), "records": [_rec(s) for s in specs], "delimiter": d, "strict": strict}
 
 
+class _Info(dict):
+    """Stand-in for pydantic's ValidationInfo: `.data` is the mapping itself."""
+    @property
+    def data(self):
+        return self
+
+
+def _validator_cases(key):
+    def gen(seed, tier):
+        pool = ["a", "b", "", "A"]
+        for p in pool:
+            for n in range(4):
+                for vs in itertools.product(pool, repeat=n):
+                    yield {"v": list(vs), "values": _Info({key: p, "other": "x"})}
+    return gen
+
+
+DOMAINS["api.Record.prefix_not_in_synonyms"] = _validator_cases("prefix")
+DOMAINS["api.Record.uri_prefix_not_in_synonyms"] = _validator_cases("uri_prefix")
+
+
 @domain("C04.record_validators")
 def _validators(seed, tier):
     pool = ["a", "b", ""]
@@ -594,6 +615,9 @@ def _fppm(seed, tier):
         data = {k: [rng.choice(Uu) for _ in range(rng.choice([1, 1, 2, 3]))] for k in keys}
         for strict in (True, False):
             yield {"data": data, "delimiter": rng.choice([":", ":", "/"]), "strict": strict}
+
+
+DOMAINS["C13.loader_keyword_defaults"] = _pm_denotes
 
 
 @domain("C13.priority_map_denotes")
